@@ -32,7 +32,7 @@ import itertools
 
 import numpy as np
 
-from .c01 import P_INITIAL, build_run, feed, table_params
+from .c01 import P_INITIAL, build_run, feed, row_order_runs, table_params
 from .common import Bounded
 
 EPS = float(np.finfo(float).eps)
@@ -129,6 +129,7 @@ def family(tier, seed):
     for res_, tab_ in (("ideal", "ideal"), ("single", "gas")):
         runs.append({"reservoir": res_, "table": tab_, "table_params": (None if tab_ == "ideal" else table_params(tab_)), "p_i": 8000.0, "p_f": 4000.0, "ratio": 0.5, "nx": 10,
                      "grid": {"kind": "tinysteps"}, "schedule": {"kind": "constant"}})
+    runs += row_order_runs(seed)
     for n, (nx, grid) in enumerate(itertools.product(NXS, grids)):
         runs.append({"reservoir": "ideal", "table": "ideal", "table_params": None, "p_i": 8000.0, "p_f": 4000.0, "ratio": 0.5, "nx": nx,
                      "grid": {"kind": grid, "nt": nt, "t_end": 5.0, "seed": seed * 100043 + n}, "schedule": {"kind": "constant"}})
